@@ -486,6 +486,14 @@ pub struct Interp {
     /// stop at violations owned by this property only (None = any)
     pub owner: Option<&'static str>,
     pub trace: Option<Vec<String>>,
+    /// concrete event log (C19 replays it with toggled loudness)
+    pub log: Option<Vec<Ev>>,
+}
+
+#[derive(Clone, Debug)]
+pub enum Ev {
+    Cmd { at: usize, probe: bool, cmd: Cmd, out: Vec<u8> },
+    Advance(u64),
 }
 
 pub fn dedupe_keys(keys: &[KeyHex]) -> Vec<Vec<u8>> {
@@ -528,6 +536,7 @@ impl Interp {
             verified: Default::default(),
             owner,
             trace: if trace { Some(vec![]) } else { None },
+            log: None,
         }
     }
 
@@ -615,6 +624,9 @@ impl Interp {
         let bytes = frame.bytes();
         let r = self.l1.exec(&bytes);
         self.res.commands += 1;
+        if let Some(l) = &mut self.log {
+            l.push(Ev::Cmd { at, probe: is_probe, cmd: cmd.clone(), out: r.out.clone() });
+        }
         let mk = |v: Violation, resp: String| Fail { at_op: at, violation: v, cmd: cmd.short(), resp };
         if let Some(p) = &r.panic {
             let mut owners = vec!["C10"];
@@ -910,6 +922,9 @@ impl Interp {
                 };
                 self.l1.advance(dt);
                 self.specs.advance(dt);
+                if let Some(l) = &mut self.log {
+                    l.push(Ev::Advance(dt));
+                }
                 self.verified.clear();
                 if dt > 0 {
                     self.feat("advanced");
